@@ -12,10 +12,14 @@ def Gigabyte : SInt := 1000 * Megabyte
 
 /-- `func AmountForBytes(gigabytePrice, bytes sdkmath.Int) sdkmath.Int` -/
 def AmountForBytes (gigabytePrice bytes : SInt) : M SInt := do
-  let bytePrice ← Dec.quoInt (Dec.ofInt gigabytePrice) Gigabyte
-  let t1 ← Dec.mul (Dec.ofInt bytes) bytePrice
-  let t2 ← Dec.ceil t1
-  Dec.truncateInt t2
+  let t1 ← SInt.quo gigabytePrice Gigabyte
+  let whole ← SInt.mul t1 bytes
+  let t2 ← SInt.mod gigabytePrice Gigabyte
+  let part ← SInt.mul t2 bytes
+  let t3 ← SInt.add part Gigabyte
+  let t4 ← SInt.sub t3 1
+  let t5 ← SInt.quo t4 Gigabyte
+  SInt.add whole t5
 
 /-- `func GetProportionOfCoin(coin sdk.Coin, share sdkmath.LegacyDec) sdk.Coin` -/
 def GetProportionOfCoin (coin : Coin) (share : Dec) : M Coin := do
